@@ -42,7 +42,10 @@ PROP = {
             "tick ttl/2, tick ttl+1ms, lost-but-applied campaign b}; generated lists of 1-40 events with 1-4 instances (own TCP connection "
             "each, ids incl. empty / 'false' / non-UTF-8), 1-2 election keys, ttl 1..600 s (ttl=0 corner for correspondence only), arbitrary "
             "initial store contents (foreign, own-from-earlier-incarnation, expired), ticks aimed at lease expiry -1/0/+1 ms, lost campaigns "
-            "and resigns (error reply or dropped connection, script executed or not). Every event: result of the REAL "
+            "and resigns (error reply or dropped connection, script executed or not); request-level interleavings: p:<call>:<key>:<id>:<k> starts a "
+            "call whose (k+1)-th Redis request is held by the store while other instances act and the clock moves, g:<id> releases it (ALL windows "
+            "of length<=2 quick / <=3 thorough over {tick ttl/2, tick ttl+1, campaign b, renew b, resign b} x call kind x k in {1,2} x 5 prefixes x 3 "
+            "suffixes, plus random ones; for one-request calls p = the plain call). Every event: result of the REAL "
             "redisElection.Campaign/Renew/Resign/Leader via NewRedisCluster + the real RESP client over loopback, live store contents and "
             "holder set, compared line by line with the Lean model (scripts = regenerated AST). lua ops: the double's Lua interpreter on the "
             "script text received at run time vs Lean evalLua on the regenerated AST, random stores/KEYS/ARGV incl. malformed ttl. "
